@@ -589,8 +589,10 @@ func runC15(run *core.Run) {
 		checkAliasManifest(run, text, ws)
 		run.SampleAt(i, na/2+1, func() any { return text })
 	})
-	// schema rules
-	for _, s := range []string{"schema: 1.2\ncontents:\n  - a.fga\n", "schema: '1.1'\ncontents:\n  - a.fga\n", "contents:\n  - a.fga\n", "schema: '1.2'\n", "schema: '1.2'\ncontents: a.fga\n", "schema: [1.2]\ncontents:\n  - a.fga\n", "schema: ' 1.2'\ncontents:\n  - a.fga\n", "schema: \"1.2\\n\"\ncontents:\n  - a.fga\n"} {
+	// schema rules; anchors that contain an alias of themselves (the YAML library hands over a cyclic node graph)
+	for _, s := range []string{"schema: '1.2'\ncontents: &a [*a]\n", "schema: '1.2'\ncontents:\n  - core.fga\n  - &s [x.fga, *s]\n", "shared: &s [*s]\nschema: '1.2'\ncontents: [*s]\n",
+		"schema: '1.2'\ncontents: &m {k: *m}\n", "schema: &v [*v]\ncontents:\n  - a.fga\n", "schema: '1.2'\ncontents:\n  - &e {p: [*e, a.fga]}\n  - b.fga\n",
+		"schema: 1.2\ncontents:\n  - a.fga\n", "schema: '1.1'\ncontents:\n  - a.fga\n", "contents:\n  - a.fga\n", "schema: '1.2'\n", "schema: '1.2'\ncontents: a.fga\n", "schema: [1.2]\ncontents:\n  - a.fga\n", "schema: ' 1.2'\ncontents:\n  - a.fga\n", "schema: \"1.2\\n\"\ncontents:\n  - a.fga\n"} {
 		mf, err := transformer.TransformModFile(s)
 		run.Eval(1)
 		if err == nil {
